@@ -82,7 +82,7 @@ class FixWrite(Case):
             return cs
         nm = '_'.join((sp[0][0] + '_'.join(str(x).replace('-', 'm') for x in sp[1:])) for sp in specs)
         Case.__init__(s, f'fw{kind[:3]}_{SHORT[T]}_{"x".join(map(str, shape))}_{nm}_{OPN[op]}', [a] + extra, k, ' '.join(lines), desc=f'A({call}) {op} {fr} on {shape} {T}', pre=pre)
-        s.dom = ('real' if kind == 'matvec' else 'uf') if T in FT else 'bits'; s.uf_int = T in IT
+        s.dom = ('real' if kind == 'matvec' else 'uf') if T in FT else 'bits'     # concrete addresses: exact integer arithmetic
         if T in FT and op == '/=' and kind == 'scalar': s.alt_ref_src = ' '.join(l.replace('/= x[0]', f'*= (({T})1/x[0])') for l in lines)
 
 
